@@ -43,15 +43,31 @@ def updKids (g : BN → Option BN) : List BN → Seg → Option (List BN)
     if (k.pat.map (patMatches · s)).getD false then (g k).map fun k' => k' :: ks
     else (updKids g ks s).map fun ks' => k :: ks'
 
--- `Node::merge_node` + `merge_here` (handler conflicts are a registration-time error, not modelled: `none` = refused)
+def hasMatch (ks : List BN) (s : Seg) : Bool := ks.any fun k => (k.pat.map (patMatches · s)).getD false
+
+-- `Node::merge_parts` (fix 8878fb7: the other node's children are merged into the children of the same pattern, not pushed beside them)
+mutual
+/-- fangs appended, a second handler refused (`set_handler`; registration-time error: `none` = refused), children merged one after the other -/
+def mergeParts : BN → BN → Option BN
+  | .mk p f h ks, .mk _ f' h' ks' =>
+    match h, h' with
+    | some _, some _ => none
+    | _, _ => (mergeKids ks ks').map fun ks2 => .mk p (appendFangs f f') (h' <|> h) ks2
+/-- the loop over the other node's children: into the child of the same pattern if there is one (`machable_child_mut`), else `append_child`
+    (which cannot refuse then: a static child of the same pattern would have matched) -/
+def mergeKids : List BN → List BN → Option (List BN)
+  | ks, [] => some ks
+  | ks, c :: cs =>
+    match c.pat with
+    | none => none
+    | some s =>
+      if hasMatch ks s then (updKids (fun k => mergeParts k c) ks s).bind fun ks2 => mergeKids ks2 cs
+      else mergeKids (ks ++ [c]) cs
+end
+
+-- `Node::merge_node` + `merge_here`
 def mergeAt : Route → BN → BN → Option BN
-  | [], .mk p f h ks, .mk _ f' h' ks' =>
-    -- `set_handler` refuses a second handler; `append_child` refuses a static child that is already there
-    -- (a second *param* child is pushed without a check)
-    if ks'.any (fun c => isStaticPat c.pat && ks.any (fun k => k.pat == c.pat)) then none else
-    (match h, h' with
-     | some _, some _ => none
-     | _, _ => some (.mk p (appendFangs f f') (h' <|> h) (ks ++ ks')))
+  | [], t, sub => mergeParts t sub
   | s :: rest, .mk p f h ks, sub =>
     (updKids (fun k => mergeAt rest k sub) ks s).map fun ks' => .mk p f h ks'
 
